@@ -1,5 +1,6 @@
 (* Driver entry points for the tree-level reference semantics (C01/C15 and friends). *)
 From Verif Require Import Base.Prelude Base.Wire Model.Tree Model.Spec Model.VM Model.Writer.
+From Verif Require Import Proofs.CompileFrag Proofs.CompileLimit Proofs.CompileCfSafe.
 
 (* oracle rows: rune, lower, is_word, is_eword, set-membership bits *)
 Record orow := { o_lower : Z; o_word : bool; o_eword : bool; o_sets : list bool }.
@@ -69,8 +70,57 @@ Definition run_write (args : list Z) : list Z :=
   | _ => bad_case
   end.
 
+(* 104: tree, has_capmap, capmap pairs, capsize -> the decidable hypotheses of the compile_correct theorems
+   (Proofs/CompileFrag.v: frag_flags), then in_thm1 .. in_thm4 *)
+Definition run_frag (args : list Z) : list Z :=
+  match (dlet t <- d_tree ; dlet hm <- d_bool ; dlet m <- d_list (d_pair d_z d_z) ; dlet cs <- d_z ;
+         d_ret (t, hm, m, cs)) args with
+  | Some ((t, hm, m, cs), []) =>
+      let cm := if hm then Some m else None in
+      e_list e_bool (frag_flags cm cs t) ++
+      e_bool (in_thm1 cm cs t) ++ e_bool (in_thm2 cm cs t) ++ e_bool (in_thm3 cm cs t) ++ e_bool (in_thm4 cm cs t)
+  | _ => bad_case
+  end.
+
+(* 105: env, tree, has_capmap, capmap pairs, capsize, start position, step budget ->
+   the monitor of Proofs/CompileLimit.v on the full program: [1; steps] when every state of the unbounded run is at
+   an instruction boundary with the grouping stack two words below its initial size, else [0] *)
+Definition run_mon (args : list Z) : list Z :=
+  match (dlet ce <- d_env ; dlet t <- d_tree ; dlet hm <- d_bool ; dlet m <- d_list (d_pair d_z d_z) ;
+         dlet cs <- d_z ; dlet t0 <- d_z ; dlet k <- d_nat ; d_ret (ce, t, hm, m, cs, t0, k)) args with
+  | Some ((ce, t, hm, m, cs, t0, k), []) =>
+      let cm := if hm then Some m else None in
+      let '(code, tbl) := write_full cm t in
+      let p := {| codes := code; strings := tbl; trackcount := track_count code; capsize := cs |} in
+      match mon_steps (ce_env ce) p k (a0 p t0) with
+      | Some n => [1; Z.of_nat n]
+      | None => [0]
+      end
+  | _ => bad_case
+  end.
+
+(* 106: tree, has_capmap, capmap pairs, capsize -> the static frame-shape verifier of Proofs/CompileCfSafe.v on the
+   full program and on the quick program (when there is one): [tyck full; has quick; tyck quick] *)
+Definition run_tyck (args : list Z) : list Z :=
+  match (dlet t <- d_tree ; dlet hm <- d_bool ; dlet m <- d_list (d_pair d_z d_z) ; dlet cs <- d_z ;
+         d_ret (t, hm, m, cs)) args with
+  | Some ((t, hm, m, cs), []) =>
+      let cm := if hm then Some m else None in
+      let '(code, tbl) := write_full cm t in
+      let mkp := fun c => {| codes := c; strings := tbl; trackcount := track_count c; capsize := cs |} in
+      e_bool (tyck_auto (mkp code)) ++
+      match write_quick cm cs t with
+      | None => [0; 0]
+      | Some q => 1 :: e_bool (tyck_auto (mkp q))
+      end
+  | _ => bad_case
+  end.
+
 Definition run01 (leg : Z) (args : list Z) : list Z :=
   if leg =? 101 then run_find args
   else if leg =? 102 then run_write args
   else if leg =? 103 then run_findk args
+  else if leg =? 104 then run_frag args
+  else if leg =? 105 then run_mon args
+  else if leg =? 106 then run_tyck args
   else bad_case.
